@@ -109,29 +109,30 @@ theorem schedules_are_bounded (cfg : Cfg) (s s' : State) (sched : List Act) (h :
 
 /-- The full-strength termination statement: in every reachable state of every pipeline in which no action is
 enabled, the stop has returned and all goroutines are gone. FALSE for loopback nodes under StopTask
-(`loopback_stop_deadlocks`) and for a UDF node above a failing node (`udf_above_failed_node_blocks_stop`),
-hence only stated. -/
+(`loopback_stop_deadlocks`), hence only stated (it was also false for a UDF node above a failing node until the
+repair of finding udf-above-failed-node-blocks-stop: `udf_above_failed_node_blocks_stop`, `Cfg.udfFwdOrphan`). -/
 def stop_terminates_stmt : Prop :=
   ∀ (cfg : Cfg) (kinds : List Kind) (n : Nat) (sched : List Act),
-    cfg.hookLock = false → cfg.alertLeak = false → cfg.influxEarlyAbort = false → 1 ≤ cfg.cap → kinds ≠ [] →
+    cfg.hookLock = false → cfg.alertLeak = false → cfg.influxEarlyAbort = false → cfg.udfFwdOrphan = false → 1 ≤ cfg.cap → kinds ≠ [] →
     let s := run cfg (init kinds n) sched
     Quiescent cfg s → s.stopped = true
 
-/-- **No deadlock, no leak**: any chain of pass / httpPost / alert / influxDBOut (repaired) / barrier / FAILING nodes (no loopback
-node: `loopback_stop_deadlocks`; no UDF node: `udf_above_failed_node_blocks_stop` — a UDF node is only safe
-while nothing below it fails, which this theorem does not yet separate), any edge buffer size ≥ 1, any number of points, StopTask or Close requested at ANY moment, ANY
+/-- **No deadlock, no leak**: any chain of pass / httpPost / alert / influxDBOut (repaired) / barrier / FAILING / UDF nodes
+(UDF nodes since the repair of finding udf-above-failed-node-blocks-stop, `udfFwdOrphan = false`: a UDF node whose child
+edge was aborted fails like every other node; the code before is `udf_above_failed_node_blocks_stop`. No loopback
+node: `loopback_stop_deadlocks`), any edge buffer size ≥ 1, any number of points, StopTask or Close requested at ANY moment, ANY
 schedule: a state in which no goroutine can move is a state in which the stop has returned and every node
 goroutine, write-buffer goroutine, handler goroutine and the throughput goroutine has exited. Together with
 `every_action_decreases_measure`: every schedule ends, after at most `mu (init …)` steps, and it ends there. -/
 theorem stop_terminates (cfg : Cfg) (kinds : List Kind) (n : Nat) (sched : List Act)
     (hhook : cfg.hookLock = false) (hleak : cfg.alertLeak = false) (hea : cfg.influxEarlyAbort = false)
     (hcap : 1 ≤ cfg.cap) (hne : kinds ≠ [])
-    (hk : ∀ k ∈ kinds, isLoop k = false) (hu : ∀ k ∈ kinds, isUdf k = false) :
+    (hfo : cfg.udfFwdOrphan = false) (hk : ∀ k ∈ kinds, isLoop k = false) :
     let s := run cfg (init kinds n) sched
     Quiescent cfg s →
       s.stopped = true ∧ stopCompletes (outcomeOf s) = true ∧ allExited (outcomeOf s) = true := by
   intro s hq
-  have hd : DInv s := dinv_run hleak hea (dinv_init kinds n hk hu) sched
+  have hd : DInv s := dinv_run hleak hea hfo (dinv_init kinds n hk) sched
   have hlen : s.nodes ≠ [] := by
     intro h0
     have := run_nodes_length (cfg := cfg) (s := init kinds n) sched
@@ -139,7 +140,7 @@ theorem stop_terminates (cfg : Cfg) (kinds : List Kind) (n : Nat) (sched : List 
     have h2 : (init kinds n).nodes.length = kinds.length := by simp [init]
     have : kinds.length = 0 := by rw [← h2, ← this]; exact h1
     exact hne (List.length_eq_zero_iff.mp this)
-  rcases progress_or_stopped hd hcap hhook hleak hea hlen with hp | hst
+  rcases progress_or_stopped hd hcap hhook hleak hea hfo hlen with hp | hst
   · exact absurd hp (quiescent_not_progress hq)
   · exact ⟨hst, stopped_terminated hst⟩
 
@@ -149,11 +150,11 @@ has returned and every goroutine of the task is gone: the property holds of what
 theorem others_still_terminate (cfg : Cfg) (kinds : List Kind) (n : Nat) (sched : List Act)
     (hhook : cfg.hookLock = false) (hleak : cfg.alertLeak = false) (hea : cfg.influxEarlyAbort = false)
     (hcap : 1 ≤ cfg.cap) (hne : kinds ≠ [])
-    (hg : cfg.barrierGuard = true) (hk : ∀ k ∈ kinds, isLoop k = false) (hu : ∀ k ∈ kinds, isUdf k = false) :
+    (hg : cfg.barrierGuard = true) (hfo : cfg.udfFwdOrphan = false) (hk : ∀ k ∈ kinds, isLoop k = false) :
     let s := run cfg (init kinds n) sched
     Quiescent cfg s → s.nodes.any (·.failed) = true → holds (outcomeOf s) = true := by
   intro s hq hf
-  have h := stop_terminates cfg kinds n sched hhook hleak hea hcap hne hk hu hq
+  have h := stop_terminates cfg kinds n sched hhook hleak hea hcap hne hfo hk hq
   exact holds_of (noCrash_of (nopanic_run hg (nopanic_init kinds n) sched)) h.2.1 h.2.2 (allDelivered_of_failed hf)
 
 /-- Non-vacuity of `others_still_terminate`: `stream → httpPost → failing node (after 1 message) → httpPost`, 3
@@ -175,12 +176,11 @@ handed every accepted point). -/
 theorem close_stops_and_delivers (cfg : Cfg) (kinds : List Kind) (n : Nat) (sched : List Act)
     (hhook : cfg.hookLock = false) (hleak : cfg.alertLeak = false) (hea : cfg.influxEarlyAbort = false)
     (hcap : 1 ≤ cfg.cap) (hne : kinds ≠ [])
-    (hclose : cfg.viaClose = true) (hg : cfg.barrierGuard = true) (hk : ∀ k ∈ kinds, losslessKind n k = true) :
+    (hclose : cfg.viaClose = true) (hg : cfg.barrierGuard = true) (hfo : cfg.udfFwdOrphan = false) (hk : ∀ k ∈ kinds, losslessKind n k = true) :
     let s := run cfg (init kinds n) sched
     Quiescent cfg s → holds (outcomeOf s) = true := by
   intro s hq
-  have h := stop_terminates cfg kinds n sched hhook hleak hea hcap hne (fun k hm => losslessKind_not_loop (hk k hm))
-    (fun k hm => losslessKind_not_udf (hk k hm)) hq
+  have h := stop_terminates cfg kinds n sched hhook hleak hea hcap hne hfo (fun k hm => losslessKind_not_loop (hk k hm)) hq
   exact (stop_delivers_all_partial cfg kinds n sched hclose hg hk h.1).1
 
 /-! ### Stopping never kills the daemon -/
@@ -212,6 +212,7 @@ theorem no_helper_sends_on_closed_edge (cfg : Cfg) (kinds : List Kind) (n : Nat)
 def cfgClose1 : Cfg := { cap := 1, viaClose := true, hookLock := false, alertLeak := false }
 def cfgTask1 : Cfg := { cap := 1, viaClose := false, hookLock := false, alertLeak := false }
 def cfgOld1 : Cfg := { cap := 1, viaClose := false, hookLock := true, alertLeak := true }
+def cfgOrphan1 : Cfg := { cfgTask1 with udfFwdOrphan := true }
 def feed1 : List Act := [.write, .forkTake, .forkLock, .forkPut, .node 0 .take, .node 0 .put]
 def stops (n : Nat) : List Act := List.replicate n .stop
 
@@ -261,18 +262,37 @@ theorem loopback_stop_deadlocks :
     .write, .forkTake, .forkLock, .forkPut, .node 0 .take, .node 0 .put, .write, .forkTake, .write] ++ stops 5 ++
     [.node 0 .exit] ++ stops 2 ++ [.thrExit], by decide⟩
 
-/-- finding `udf-above-failed-node-blocks-stop`: `stream → @udf → failing node`: when the node below a UDF node
+/-- defect repaired by 31646cb (`Cfg.udfFwdOrphan = true` is the code before; it was the known finding
+`udf-above-failed-node-blocks-stop`): `stream → @udf → failing node`: when the node below a UDF node
 fails, only the UDF node's FORWARDING goroutine sees ErrAborted and returns; the node keeps its UDF running with
 nobody reading its output, stops consuming, and its full input edge blocks the nodes above it. The stop waits
 for those first (walk order) and never gets to abort the UDF. Nothing is enabled, the stop has not returned. -/
 theorem udf_above_failed_node_blocks_stop :
-    ∃ sched, (runStrict cfgTask1 (init [.pass, .udf, .fail 0] 5) sched).map
-      (fun s => (s.ph, enabledActs cfgTask1 s, s.nodes.map (·.done))) = some (.wait 0, [], [false, false, true]) :=
+    ∃ sched, (runStrict cfgOrphan1 (init [.pass, .udf, .fail 0] 5) sched).map
+      (fun s => (s.ph, enabledActs cfgOrphan1 s, s.nodes.map (·.done))) = some (.wait 0, [], [false, false, true]) :=
   ⟨[.write, .forkTake, .forkLock, .forkPut, .node 0 .take, .node 0 .put, .node 1 .take, .node 1 .put, .node 2 .take, .node 2 .exit,
     .write, .forkTake, .forkLock, .forkPut, .node 0 .take, .node 0 .put, .node 1 .take, .node 1 .putErr,
     .write, .forkTake, .forkLock, .forkPut, .node 0 .take, .node 0 .put, .node 1 .take,
     .write, .forkTake, .forkLock, .forkPut, .node 0 .take, .node 0 .put,
     .write, .forkTake, .forkLock, .forkPut, .node 0 .take] ++ stops 5 ++ [.thrExit], by decide⟩
+
+/-- … with the repaired code the UDF node fails with the forwarding error (the same first 18 actions: the node below
+fails, the UDF node's forward gets ErrAborted), returns and aborts its own input edge; the stop completes, every
+goroutine exits, nothing is enabled any more. -/
+theorem udf_above_failed_node_repaired :
+    ∃ sched, (runStrict cfgTask1 (init [.pass, .udf, .fail 0] 5) sched).map
+      (fun s => (s.stopped, enabledActs cfgTask1 s, s.nodes.map (·.failed))) = some (true, [], [false, true, true]) :=
+  ⟨[.write, .forkTake, .forkLock, .forkPut, .node 0 .take, .node 0 .put, .node 1 .take, .node 1 .put, .node 2 .take, .node 2 .exit,
+    .write, .forkTake, .forkLock, .forkPut, .node 0 .take, .node 0 .put, .node 1 .take, .node 1 .putErr,
+    .node 1 .exit] ++ stops 3 ++ [.node 0 .exit, .stop, .thrExit] ++ stops 8, by decide⟩
+
+/-- Non-vacuity of `stop_terminates` for chains with a UDF node: the state reached by the schedule above is quiescent
+and comes from a chain with a UDF node above a failing node. -/
+example : ∃ sched, enabledActs cfgTask1 (run cfgTask1 (init [.pass, .udf, .fail 0] 5) sched) = [] ∧
+    (run cfgTask1 (init [.pass, .udf, .fail 0] 5) sched).stopped = true :=
+  ⟨[.write, .forkTake, .forkLock, .forkPut, .node 0 .take, .node 0 .put, .node 1 .take, .node 1 .put, .node 2 .take, .node 2 .exit,
+    .write, .forkTake, .forkLock, .forkPut, .node 0 .take, .node 0 .put, .node 1 .take, .node 1 .putErr,
+    .node 1 .exit] ++ stops 3 ++ [.node 0 .exit, .stop, .thrExit] ++ stops 8, by decide, by decide⟩
 
 /-- … with the repaired code (the node's deferred stopBuffer flushes and stops the write buffer once the input has
 been consumed) the same backlog is written: a schedule of `stream → influxDBOut.buffer(2)` stopped by Close with
